@@ -1277,7 +1277,7 @@ def check_C06(tier, seed):
     gate, obl = gate_and_ties(run, ctx, 'C06', seed, tier)
     rnd = random.Random(seed * 1000003 + 6)
     st = Stats()
-    envs = envs_for(rnd, tier, 14, 120)
+    envs = envs_for(rnd, tier, 14, 120, oneof_defaults=True)     # with the hand-made schemas (packed / unpacked repeated fields of every scalar type, ...)
     per_env = 60 if tier == 'quick' else 160
     tally = {'inputs': 0, 'accepted': 0, 'stable': 0}
     nf = {'accepted_by_model': 0, 'normal_form_after_normalisation': 0, 'already_normal_form': 0}
